@@ -380,7 +380,7 @@ theorem findGE_eq (sl : SkipList β) (inv : LanesInv sl) (score : Int) :
   | cons n rest =>
     have h1 := hB n (by simp)
     simp at h1
-    simp [List.find?_cons, h1]
+    simp [h1]
 
 theorem delete_nodes (sl : SkipList β) (inv : LanesInv sl) (score : Int) :
     (sl.delete score).1.nodes = eraseScore sl.nodes score ∧
@@ -415,7 +415,7 @@ theorem delete_nodes (sl : SkipList β) (inv : LanesInv sl) (score : Int) :
   | cons n rest =>
     simp only
     by_cases hs : n.score = score
-    · simp [hs, List.eraseP_cons]
+    · simp [hs]
     · have hnone : ∀ x ∈ rest, ¬ x.score = score := by
         intro x hx
         have h1 := hB n (by simp)
